@@ -46,14 +46,21 @@ def plan(tier):
   def chunks(xs, m):
     return [xs[i:i + m] for i in range(0, len(xs), m)]
 
+  def pairs_edge(n):
+    """Above 100 nodes: every pair with an endpoint next to a 64-bit word
+    boundary or at either end of the id range (all rows x boundary columns and
+    boundary rows x all columns)."""
+    edge = {i for i in (0, 1, 62, 63, 64, 65, 126, 127, 128, n - 2, n - 1) if 0 <= i < n}
+    return [(a, b) for a in range(n) for b in range(n) if a in edge or b in edge]
+
   conn_sizes = small + ([65] if tier == "quick" else BOUNDARY)
   for n in conn_sizes:
     per = 400 if n <= 16 else 60
-    for ch in chunks(pairs_all(n), per):
+    for ch in chunks(pairs_all(n) if n < 100 else pairs_edge(n), per):
       jobs.append(("add_connection", {"n": n, "pairs": ch}))
   reach_sizes = small + ([65] if tier == "quick" else [64, 65, 128, 130])
   for n in reach_sizes:
-    for ch in chunks(pairs_all(n), 600):
+    for ch in chunks(pairs_all(n) if n < 100 else pairs_edge(n), 600):
       jobs.append(("is_reachable", {"n": n, "pairs": ch}))
   node_sizes = list(range(0, 9)) + [63, 64, 65, 127, 128] + ([] if tier == "quick" else [129, 191, 192])
   for n in node_sizes:
@@ -298,8 +305,8 @@ def main(tier):
           "pytype/typegraph/reachable.cc: ReachabilityAnalyzer::ReachabilityAnalyzer, add_node, add_connection, is_reachable (+ std::vector<std::vector<long>>::_M_default_append, std::vector<long>::_M_fill_insert)",
           "pytype/typegraph/typegraph.cc: CFGNode::ConnectTo, Program::is_reachable"],
       "bounds": {
-          "add_connection": "all (src,dst) for node counts %s" % sorted({j[1]["n"] for j in jobs if j[0] == "add_connection"}),
-          "is_reachable": "all (a,b) for node counts %s" % sorted({j[1]["n"] for j in jobs if j[0] == "is_reachable"}),
+          "add_connection": "all (src,dst) for node counts below 100, and every (src,dst) with an endpoint at 0, 1, 62-65, 126-128, n-2 or n-1 above; node counts %s" % sorted({j[1]["n"] for j in jobs if j[0] == "add_connection"}),
+          "is_reachable": "all (a,b) for node counts below 100, the same boundary rows/columns above; node counts %s" % sorted({j[1]["n"] for j in jobs if j[0] == "is_reachable"}),
           "add_node": "from node counts %s, both layouts" % sorted({j[1]["n"] for j in jobs if j[0] == "add_node"}),
           "closure_lemma": "n <= %d" % max(j[1]["n"] for j in jobs if j[0] == "closure_lemma"),
           "history (nodes, edges)": [(j[1]["n"], j[1]["k"]) for j in jobs if j[0] == "history"],
